@@ -81,6 +81,9 @@ func emitCase(c *hl.Ctx, origin, src string, feat []string) {
 	} else {
 		out["f2"] = hl.Hx([]byte(o.F2))
 		out["af1"] = o.AF1
+		if o.DiffAt != "" {
+			out["dat"] = o.DiffAt
+		}
 	}
 	if o.AST != nil {
 		out["ast"] = o.AST
